@@ -63,10 +63,16 @@ func (s *socket) RecvMsg() (*protocol.Message, error) {
 	// socket.  Later we can look at moving this to priority queues
 	// based on socket pipes.
 	tq := nilQ
+	var expireQ <-chan time.Time
 	for {
 		s.Lock()
 		if s.recvExpire > 0 {
-			tq = time.After(s.recvExpire)
+			if expireQ == nil {
+				// the deadline belongs to the call: armed once, not
+				// again each time the queue is replaced
+				expireQ = time.After(s.recvExpire)
+			}
+			tq = expireQ
 		}
 		cq := s.closeQ
 		rq := s.recvQ
